@@ -278,9 +278,9 @@ _Q_CUT = (_B + _CANON + _FIX + ' and nimp == 0 and 0 <= cut < 80 and verbose == 
 # message building on the error paths (-v / -vv, noise incl. undecodable bytes)
 _Q_VERB = (_B + _CANON + _FIX + ' and nimp == 0 and cut == -1 and 1 <= verbose <= 2 and (fault == 0 or fault == 4 or fault == 1) and k0 < %d and k1 < %d '
            'and nf == 1 and f0 == 0 and ne == 1 and e0 == 2' % (N_PLAIN_NOISE, N_PLAIN_NOISE))
-_T_COMPLETE = _B + _CANON + ' and cut == -1 and k0 < %d and k1 < %d and nn <= 1 and verbose == 0 and (ran == 0 or ran == 3) and nout <= 1' % (N_PLAIN_NOISE, N_PLAIN_NOISE)
+_T_COMPLETE = _B + _CANON + ' and (nf < 2 or f1 == 1) and (ne < 2 or e1 == 0) and cut == -1 and k0 < %d and k1 < %d and nn <= 1 and verbose == 0 and (ran == 0 or ran == 3) and nout <= 1' % (N_PLAIN_NOISE, N_PLAIN_NOISE)
 _T_CUT = (_B + _CANON + ' and 0 <= cut < 120 and verbose == 0 and (fault == 0 or fault == 2 or fault == 3) and nn <= 1 and k0 < %d '
-          'and f0 != 5 and f1 != 5 and e0 != 5 and e1 != 5 and f0 <= 3 and f1 <= 3 and e0 <= 3 and e1 <= 3 and ran == 3 and nout == 1' % N_PLAIN_NOISE)
+          'and (nf == 0 or f0 == 0 or f0 == 3) and (nf < 2 or f1 == 1) and (ne == 0 or e0 == 2) and (ne < 2 or e1 == 0) and ran == 3 and nout == 1 and nimp == 0' % N_PLAIN_NOISE)
 _T_VERB = (_B + _CANON + ' and cut == -1 and 1 <= verbose <= 2 and k0 < %d and k1 < %d and nf <= 1 and (nf == 0 or f0 == 3) and ne <= 1 and (ne == 0 or e0 == 5) '
            'and ran == 3' % (N_PLAIN_NOISE, N_PLAIN_NOISE))
 
